@@ -10,7 +10,7 @@ props="$@"
 if [ -z "$props" ]; then props=$(python3 -c "import json;print(json.load(open('$d/meta.json'))['property'])"); fi
 rc=0; mkdir -p /tmp/wt_seeded_ev_$$; cp /verif/known_findings.json /tmp/wt_seeded_ev_$$/
 for p in $props; do
-  HCSA_VERIF=/tmp/wt_seeded_ev_$$ /verif/bin/hcsa check $p -repo $WT -verif /tmp/wt_seeded_ev_$$ | sed "s#$WT/##g" | grep -v '^    |' | cut -c1-400
+  HCSA_VERIF=/tmp/wt_seeded_ev_$$ ${HCSA_BIN:-/verif/bin/hcsa} check $p -repo $WT -verif /tmp/wt_seeded_ev_$$ | sed "s#$WT/##g" | grep -v '^    |' | cut -c1-400
   [ ${PIPESTATUS[0]} -ne 0 ] && rc=1
 done
 rm -rf /tmp/wt_seeded_ev_$$
